@@ -208,3 +208,28 @@ class AlignedGlobalAxes(Contract):
             if n == len(log):
                 return lab
         return None
+
+
+def _aligned_axes_sweep(self, tier, seed):
+    from contracts.common import native_sweep, sorted_env
+
+    cases = [{"sizes": sz, "method": m} for sz in ((9, 8, 7), (6, 5, 7, 4), (12, 12)) for m in METHODS]
+
+    def env(case, rng):
+        e = {}
+        base = sorted({round(rng.uniform(-10, 10), 1) for _ in range(40)})
+        for d, n in enumerate(case["sizes"]):
+            # axes that share points, nearly share points and have points of their own
+            pts = sorted({(rng.choice(base) + rng.choice([0.0, 0.0, 0.02, -0.03, 0.4])) for _ in range(n * 4)})
+            rng.shuffle(pts)
+            pts = sorted(pts[:n])
+            if len(pts) < n:
+                pts = sorted(set(pts) | {20.0 + k for k in range(n - len(pts))})
+            e.update({f"g{d}_{i}": round(v, 3) for i, v in enumerate(pts)})
+        e["tol"] = rng.choice([0.0, 0.05, 0.3])
+        return e
+
+    return native_sweep(self, cases, envs=env, tries=3, seed=seed)
+
+
+AlignedGlobalAxes.bounded_checks = _aligned_axes_sweep
